@@ -45,6 +45,13 @@ def guarded(fn, what):
 
 # ------------------------------------------------------------------ (a) constructor on arbitrary bytes
 def o_ctor(case):
+    from pv.core import diagnostics
+
+    with diagnostics(bool(case.get('diag'))):
+        return _o_ctor(case)
+
+
+def _o_ctor(case):
     from pyrtcm import RTCMMessage
 
     p = bytes.fromhex(case["payload"])
@@ -75,7 +82,7 @@ def s_ctor(tier):
         body = draw(st.one_of(st.binary(min_size=ln, max_size=ln), st.sampled_from([b"\x00", b"\xff"]).map(lambda c: c * ln)))
         return hb + body
 
-    return st.one_of(raw, headed(), headed()).map(lambda b: {"payload": b.hex()})
+    return st.builds(lambda b, d: {"payload": b.hex(), "diag": d}, st.one_of(raw, headed(), headed()), st.booleans())
 
 
 def e_ctor(tier, shard, nshards):
@@ -89,7 +96,7 @@ def e_ctor(tier, shard, nshards):
                     body = hashlib.blake2b(f"{n}|{ln}".encode(), digest_size=max(1, ln)).digest()[:ln]
                 else:
                     body = bytes.fromhex(fill) * ln
-                yield {"payload": (hb + body)[:ln].hex()}
+                yield {"payload": (hb + body)[:ln].hex(), "diag": bool(n & 1)}
 
 
 # ------------------------------------------------------------------ (b) structure-aware mutations
@@ -167,6 +174,13 @@ def s_vtec(draw, tier):
 
 # ------------------------------------------------------------------ (c) static parser on arbitrary buffers
 def o_static(case):
+    from pv.core import diagnostics
+
+    with diagnostics(bool(case.get('diag'))):
+        return _o_static(case)
+
+
+def _o_static(case):
     from pyrtcm import RTCMReader
 
     buf = bytes.fromhex(case["buf"])
@@ -196,21 +210,15 @@ def s_static(draw, tier):
     else:
         n = draw(st.integers(0, 8))
         buf = draw(st.sampled_from([b"\xd3", b"\x00", b"\xff"])) * n
-    return {"buf": buf.hex()}
+    return {"buf": buf.hex(), "diag": draw(st.booleans())}
 
 
 # ------------------------------------------------------------------ (d) iteration over adversarial streams
 def o_iter(case):
-    import logging
+    from pv.core import diagnostics
 
-    lg = logging.getLogger("pyrtcm")
-    old_level = lg.level
-    if case.get("debug"):
-        lg.setLevel(logging.DEBUG)
-    try:
+    with diagnostics(bool(case.get("debug"))):
         return _o_iter(case)
-    finally:
-        lg.setLevel(old_level)
 
 
 def _o_iter(case):
@@ -230,9 +238,36 @@ def _o_iter(case):
         step = max(1, case["chunk"])
         cc = {"chunks": [data[i : i + step].hex() for i in range(0, len(data), step)], "enc": case["enc"], "hexcase": [0], "terminator": True}
         encoded, _ = c12.encode(cc)
+        if case.get("rawchunked"):
+            # NOT a chunked body at all (e.g. the tail of a response header, text lines, binary): still only library errors
+            encoded = bytes.fromhex(case["rawchunked"]) + data
         sock = ScriptedSocket(streams.split(encoded, [c for c in case["cuts"] if 0 < c < len(encoded)]) + ["close"])
         sock.budget = 6 * len(encoded) + 256
         stream = sock
+    elif case["stream"] == "nonseekable":
+        # a pipe / serial-like object: has seek() and tell() attributes (io.BufferedReader) but cannot seek
+        import io
+
+        class _Raw(io.RawIOBase):
+            def __init__(self, d):
+                self.d, self.p, self.calls = d, 0, 0
+
+            def readable(self):
+                return True
+
+            def seekable(self):
+                return False
+
+            def readinto(self, b):
+                self.calls += 1
+                if self.calls > len(self.d) + 64:
+                    raise Fail("non-termination", f"raw stream read {self.calls} times for {len(self.d)} bytes")
+                n = min(len(b), len(self.d) - self.p)
+                b[:n] = self.d[self.p : self.p + n]
+                self.p += n
+                return n
+
+        stream = io.BufferedReader(_Raw(data), buffer_size=case.get("chunk", 64) or 64)
     else:
         stream = BudgetBytesIO(data)
     calls = []
@@ -283,11 +318,18 @@ def _iterate(case, rdr, stream, data, qoe, sock):
 @st.composite
 def s_iter(draw, tier):
     items = streams.flatten(draw(st.lists(streams.adversarial_items("small"), min_size=1, max_size=10)))
-    kind = draw(st.sampled_from(["scripted", "scripted", "bytesio", "chunked-socket"]))
+    kind = draw(st.sampled_from(["scripted", "scripted", "bytesio", "chunked-socket", "nonseekable"]))
     extra = {}
+    if kind == "nonseekable":
+        extra = {"chunk": draw(st.sampled_from([1, 2, 16, 64, 8192]))}
+        if draw(st.booleans()) and items:
+            # the stream ends inside the last item (after 1, 2, 3 ... bytes of a frame)
+            last = bytes.fromhex(items[-1]["b"])
+            items = items[:-1] + [{"k": "decoy", "b": last[: draw(st.integers(1, max(1, len(last) - 1)))].hex(), "decoy": "truncated"}]
     if kind == "chunked-socket":
         n = sum(len(i["b"]) // 2 for i in items)
-        extra = {"enc": draw(st.sampled_from(["none", "gzip", "compress", "deflate", "gzip+deflate", "gzip+compress", "compress+deflate", "gzip+compress+deflate"])), "chunk": draw(st.sampled_from([7, 64, 500, 5000])), "cuts": draw(streams.partitions(max(2, 2 * n)))}
+        raw = draw(st.one_of(st.none(), st.none(), st.sampled_from([b"ked\r\n\r\n", b"Transfer-Encoding: chunked\r\n\r\n", b"zz\r\n", b"1g\r\n", b"ffffffffffffffffffff\r\nabc\r\n", b"7fffffffffffffff\r\n", b"-1\r\n", b"0x10\r\n", b" 5 \r\nhello\r\n", b"5;ext=1\r\nhello\r\n"]), st.binary(min_size=1, max_size=30)))
+        extra = {"rawchunked": raw.hex() if raw else None, "enc": draw(st.sampled_from(["none", "gzip", "compress", "deflate", "gzip+deflate", "gzip+compress", "compress+deflate", "gzip+compress+deflate"])), "chunk": draw(st.sampled_from([7, 64, 500, 5000])), "cuts": draw(streams.partitions(max(2, 2 * n)))}
     return {
         **extra,
         "items": items,
